@@ -2,6 +2,7 @@ package main
 
 import (
 	"fmt"
+	"go/token"
 	"go/types"
 	"sort"
 	"strings"
@@ -32,6 +33,7 @@ type loopInfo struct {
 	headSt *State // state after havoc, at head
 	phiVals map[*ssa.Phi]Val
 	variant0 string
+	cands   []*autoInv
 }
 
 type Frame struct {
@@ -353,7 +355,14 @@ func (fr *Frame) execBlock(b *ssa.BasicBlock, st0 *State) {
 		}
 		li.preSt = fr.st.clone()
 		fr.checkInvariants(li, "inv-init", fr.pc, fr.st)
+		li.cands = fr.autoCandidates(li, phis)
+		for _, c := range li.cands {
+			e.oblige("auto-inv-init", c.id, fr.pc, c.term(fr, fr.vals[c.phi]), e.posOf(li.head.Instrs[0].Pos()), "inferred loop invariant "+c.desc)
+		}
 		fr.havocLoop(li, phis)
+		for _, c := range li.cands {
+			e.assume(mkImp(fr.pc, c.term(fr, fr.vals[c.phi])))
+		}
 		li.phiVals = map[*ssa.Phi]Val{}
 		for _, phi := range phis {
 			li.phiVals[phi] = fr.vals[phi]
@@ -608,6 +617,11 @@ func (fr *Frame) backEdge(from, head *ssa.BasicBlock, c string) {
 			}
 		}
 	}
+	for _, cnd := range li.cands {
+		if nv, ok := ov[cnd.phi]; ok {
+			fr.e.oblige("auto-inv-preserve", cnd.id, c, cnd.term(fr, nv), fr.e.posOf(li.head.Instrs[0].Pos()), "inferred loop invariant "+cnd.desc)
+		}
+	}
 	if li.spec == nil {
 		return
 	}
@@ -638,4 +652,151 @@ func (fr *Frame) backEdge(from, head *ssa.BasicBlock, c string) {
 	for phi, v := range saved {
 		fr.vals[phi] = v
 	}
+}
+
+// ---- inferred loop invariants (Houdini-style candidates; every candidate is proved
+// inductive like a user invariant, failing candidates are dropped by the driver and the
+// function is regenerated without them)
+
+type autoInv struct {
+	id    string
+	desc  string
+	phi   *ssa.Phi
+	op    string // SMT comparison
+	other ssa.Value
+}
+
+func (c *autoInv) term(fr *Frame, pv Val) string {
+	o := fr.val(c.other)
+	return app(c.op, pv.S, o.S)
+}
+
+func (fr *Frame) autoCandidates(li *loopInfo, phis []*ssa.Phi) []*autoInv {
+	var out []*autoInv
+	inLoop := func(v ssa.Value) bool {
+		if in, ok := v.(ssa.Instruction); ok {
+			return li.body[in.Block()]
+		}
+		return false
+	}
+	for _, phi := range phis {
+		w, signed, ok := intInfo(phi.Type())
+		_ = w
+		if !ok {
+			continue
+		}
+		// one entry value, back-edge values of the form phi±k
+		var init ssa.Value
+		dir := 0
+		good := true
+		derived := map[ssa.Value]bool{phi: true}
+		for i, p := range li.head.Preds {
+			ev := phi.Edges[i]
+			if fr.isBackEdge(p, li.head) {
+				bo, ok := ev.(*ssa.BinOp)
+				if !ok || bo.X != ssa.Value(phi) {
+					good = false
+					break
+				}
+				k, ok := bo.Y.(*ssa.Const)
+				if !ok || k.Value == nil {
+					good = false
+					break
+				}
+				kv := k.Int64()
+				d := 0
+				switch {
+				case bo.Op == token.ADD && kv > 0, bo.Op == token.SUB && kv < 0:
+					d = 1
+				case bo.Op == token.SUB && kv > 0, bo.Op == token.ADD && kv < 0:
+					d = -1
+				default:
+					good = false
+				}
+				if dir != 0 && d != dir {
+					good = false
+				}
+				dir = d
+				derived[ev] = true
+			} else {
+				if init != nil && init != ev {
+					good = false
+				}
+				init = ev
+			}
+		}
+		if !good || init == nil || dir == 0 || inLoop(init) {
+			continue
+		}
+		name := phi.Comment
+		if name == "" {
+			name = "idx"
+		}
+		cmp := func(s, u string) string {
+			if signed {
+				return s
+			}
+			return u
+		}
+		base := fmt.Sprintf("%sloop%d/%s", fr.prefix, li.ord, name)
+		add := func(rule, op string, other ssa.Value, desc string) {
+			id := base + "/" + rule
+			if fr.e.disabledAuto[id] {
+				return
+			}
+			for _, c := range out {
+				if c.id == id {
+					return
+				}
+			}
+			out = append(out, &autoInv{id: id, desc: desc, phi: phi, op: op, other: other})
+		}
+		if dir > 0 {
+			add("ge-init", cmp("bvsge", "bvuge"), init, name+" >= its initial value")
+		} else {
+			add("le-init", cmp("bvsle", "bvule"), init, name+" <= its initial value")
+		}
+		// comparisons of phi / phi±k against loop-invariant values inside the loop
+		n := 0
+		for b := range li.body {
+			for _, in := range b.Instrs {
+				bo, ok := in.(*ssa.BinOp)
+				if !ok {
+					continue
+				}
+				var other ssa.Value
+				flip := false
+				switch {
+				case derived[bo.X] && !inLoop(bo.Y):
+					other = bo.Y
+				case derived[bo.Y] && !inLoop(bo.X):
+					other = bo.X
+					flip = true
+				default:
+					continue
+				}
+				var ops []string
+				switch bo.Op {
+				case token.LSS, token.LEQ:
+					ops = []string{cmp("bvslt", "bvult"), cmp("bvsle", "bvule")}
+					if flip {
+						ops = []string{cmp("bvsgt", "bvugt"), cmp("bvsge", "bvuge")}
+					}
+				case token.GTR, token.GEQ:
+					ops = []string{cmp("bvsgt", "bvugt"), cmp("bvsge", "bvuge")}
+					if flip {
+						ops = []string{cmp("bvslt", "bvult"), cmp("bvsle", "bvule")}
+					}
+				default:
+					continue
+				}
+				n++
+				for _, op := range ops {
+					add(fmt.Sprintf("%s-%s", op, other.Name()), op, other, fmt.Sprintf("%s %s %s", name, op, other.Name()))
+				}
+			}
+		}
+	}
+	sort.Slice(out, func(i, j int) bool { return out[i].id < out[j].id })
+	return out
 }
